@@ -741,7 +741,10 @@ def c14_instances(tier):
     I = [simple_inst("train_instance", "c14_fb2__b1_1to1", "1, 1, 1, 2, 0.5, 1", "Model::forward / Model::backward on ONE model, two iterations",
                      "each iteration returns the loss (sum of the cost array) of the current parameters on the CURRENT batch; nothing of the "
                      "previous iteration's output is used",
-                     "dense 1->1 (no activation), mse, batch 1, 2 iterations with fresh symbolic batches, no update in between", unwind=12, timeout=1500, mem_gb=30)]
+                     "dense 1->1 (no activation), mse, batch 1, 2 iterations with fresh symbolic batches, no update in between", unwind=12, timeout=1500, mem_gb=30),
+         simple_inst("update_instance", "c14_step__2__2x1__none__r2__m3", "[2], [2, 1], [], 2, 3, 0.5", "GradientDescent::update, two consecutive steps",
+                     "the optimizer step of an iteration leaves clean fresh leaves: a second step without new gradients changes nothing",
+                     "two parameters, both with gradients in round 1, none in round 2", unwind=14, timeout=900)]
     if tier == "thorough":
         I += [simple_inst("train2_instance", "c14_train2__b1_1to1_i2", "1, 1, 1, 2, 0.5", "forward / backward / GradientDescent::update loop",
                           "each iteration returns the current loss and moves every parameter by -lr x exact gradient of that loss; parameters are "
